@@ -326,7 +326,11 @@ class Ev:
         kv = self.coerce(kv, d['key'])
         kt = V.key_term(types, kv, None if self.quant else self.st)
         key, reg = self.st.region('map', mt, ('has',), ('A', 'B'))
-        return z3.And(m.term != 0, z3.Select(z3.Select(reg, m.term), kt))
+        present = z3.And(m.term != 0, z3.Select(z3.Select(reg, m.term), kt))
+        if not self.quant:
+            kl, ln = self.st.region('map', mt, ('len',), 'I')
+            self.st.assume(z3.Implies(present, z3.Select(ln, m.term) >= 1))
+        return present
 
     def map_len(self, m):
         mt = self.types.under(m.t)
